@@ -1,12 +1,168 @@
 (* Pinned statements for C14: compiled on every check run. A statement weakened in Props/ fails here. *)
 From Coq Require Import List Permutation String.
-From TS Require Import Model.Str Model.Outcome Model.Unicode Model.Syntax Model.Types Model.Parse Model.Reconcile Model.Collect Model.MultiFile.
+From TS Require Import Model.Str Model.Outcome Model.Unicode Model.Syntax Model.Rename Model.Types Model.Parse Model.Reconcile Model.Collect Model.Lang.Common Model.MultiFile.
+From TS Require Model.Writer.
 From TS Require Import Spec.C14Spec.
-From TS Require Proofs.C14.
+From TS Require Proofs.C14 Proofs.C14Front Proofs.C14Main Proofs.C14Imports Proofs.C14Witness.
 Import ListNotations.
+Local Open Scope string_scope.
 From TS Require Props.C14.
 
 Goal forall pre above post, ~ In SRC post ->
     find_crate_name (pre ++ above :: SRC :: post) = Some (replace_char ch_dash ch_us above).
 Proof. exact Props.C14.C14_find_crate_name_last_src. Qed.
 Print Assumptions Props.C14.C14_find_crate_name_last_src.
+Goal forall components, find_crate_name components = crate_of components.
+Proof. exact Props.C14.C14_find_crate_name_spec. Qed.
+Print Assumptions Props.C14.C14_find_crate_name_spec.
+Goal forall components c, crate_of components = Some c <-> is_crate_of components c.
+Proof. exact Props.C14.C14_crate_of_iff. Qed.
+Print Assumptions Props.C14.C14_crate_of_iff.
+Goal forall components, ~ In SRC components -> find_crate_name components = None.
+Proof. exact Props.C14.C14_find_crate_name_no_src. Qed.
+Print Assumptions Props.C14.C14_find_crate_name_no_src.
+Goal forall components c, find_crate_name components = Some c -> ~ In ch_dash c.
+Proof. exact Props.C14.C14_find_crate_name_dashes. Qed.
+Print Assumptions Props.C14.C14_find_crate_name_dashes.
+Goal forall l c, l <> Swift -> output_file_name l c = file_name14 l c.
+Proof. exact Props.C14.C14_output_file_name_spec. Qed.
+Print Assumptions Props.C14.C14_output_file_name_spec.
+Goal forall c, conventional_crate c = true -> output_file_name Swift c = file_name14 Swift c.
+Proof. exact Props.C14.C14_swift_file_name_spec. Qed.
+Print Assumptions Props.C14.C14_swift_file_name_spec.
+Goal forall l a b, l <> Swift -> output_file_name l a = output_file_name l b -> a = b.
+Proof. exact Props.C14.C14_output_file_name_injective. Qed.
+Print Assumptions Props.C14.C14_output_file_name_injective.
+Goal lit "a_b" <> lit "a__b" /\ output_file_name Swift (lit "a_b") = output_file_name Swift (lit "a__b").
+Proof. exact Props.C14.C14_swift_file_collision_refuted. Qed.
+Print Assumptions Props.C14.C14_swift_file_collision_refuted.
+Goal forall (uc : unicode) (T ign : list str) (ho_file ho_crate : list imported -> list imported)
+         (hc : crate_types -> crate_types) (l : lang) (ws : list ws_entry) (arrivals : list (str * parsed)),
+    parse_workspace uc T ign ho_file ws = Ok arrivals ->
+    let plan := multi_plan l hc (multi_crates ho_crate arrivals) in
+    NoDup (map op_crate plan) /\
+    (forall p, In p plan -> op_file p = output_file_name l (op_crate p)) /\
+    (forall c, In c (map op_crate plan) <->
+       exists e pd0, In e ws /\ find_crate_name (we_path e) = Some c /\ parse_file uc (we_tstr e) T (we_file e) = Ok (Some pd0)) /\
+    (forall p, In p plan ->
+       Permutation (map c14_decl (items_of (op_data p)))
+                   (map c14_decl (crate_items (Proofs.C14Main.c14_infos uc T ws) (op_crate p)))).
+Proof. exact Props.C14.C14_partition. Qed.
+Print Assumptions Props.C14.C14_partition.
+Goal forall (uc : unicode) (T ign : list str) (ho_file ho_crate : list imported -> list imported)
+         (hc : crate_types -> crate_types) (l : lang) (ws : list ws_entry) (arrivals : list (str * parsed)),
+    parse_workspace uc T ign ho_file ws = Ok arrivals -> l <> Swift ->
+    NoDup (map op_file (multi_plan l hc (multi_crates ho_crate arrivals))).
+Proof. exact Props.C14.C14_partition_files_distinct. Qed.
+Print Assumptions Props.C14.C14_partition_files_distinct.
+Goal forall (uc : unicode) (T ign : list str) (ho_file ho_crate : list imported -> list imported)
+         (hc : crate_types -> crate_types) (l : lang) (ws : list ws_entry) (arrivals : list (str * parsed)) (singles : list parsed),
+    parse_workspace uc T ign ho_file ws = Ok arrivals ->
+    parse_workspace_single uc T (crate_entries ws) = Ok singles ->
+    Permutation (flat_map (fun p => map c14_decl (items_of (op_data p))) (multi_plan l hc (multi_crates ho_crate arrivals)))
+                (map c14_decl (items_of (single_file_input singles))).
+Proof. exact Props.C14.C14_partition_same_as_single_file. Qed.
+Print Assumptions Props.C14.C14_partition_same_as_single_file.
+Goal forall (uc : unicode) (T ign : list str) (ho_file : list imported -> list imported) (ws : list ws_entry) (arrivals : list (str * parsed)),
+    parse_workspace uc T ign ho_file ws = Ok arrivals ->
+    parse_workspace_single uc T (crate_entries ws) = Ok (map (fun a => Proofs.C14Front.core (snd a)) arrivals).
+Proof. exact Props.C14.C14_single_file_front_end_agrees. Qed.
+Print Assumptions Props.C14.C14_single_file_front_end_agrees.
+Goal forall (St : Type) (gen : St -> str -> scoped -> parsed -> outcome (str * St)) (plan : list out_plan) (st st' : St),
+    snd (generate_crates gen st plan) = Ok st' ->
+    map fst (fst (generate_crates gen st plan)) = map op_file plan /\
+    Forall (fun r => exists text, snd r = Writer.Generated text) (fst (generate_crates gen st plan)).
+Proof. exact Props.C14.C14_files_written. Qed.
+Print Assumptions Props.C14.C14_files_written.
+Goal forall (hc : crate_types -> crate_types) (cs : crates) (cn : str) (pd : parsed) (k n : str),
+    (forall l x, In x (hc l) -> In x l) ->
+    In (k, n) (scoped_pairs (crate_imports hc cs cn pd)) ->
+    k <> cn /\ exists names, In (k, names) (all_types cs) /\ In n names.
+Proof. exact Props.C14.C14_imports_sound. Qed.
+Print Assumptions Props.C14.C14_imports_sound.
+Goal forall (uc : unicode) (T ign : list str) (ho_file ho_crate : list imported -> list imported)
+         (hc : crate_types -> crate_types) (ws : list ws_entry) (arrivals : list (str * parsed)),
+    parse_workspace uc T ign ho_file ws = Ok arrivals ->
+    forall c pd, (forall l x, In x (hc l) -> In x l) ->
+      unsound_imports (Proofs.C14Main.c14_infos uc T ws) c
+        (scoped_pairs (crate_imports hc (multi_crates ho_crate arrivals) c pd)) = [].
+Proof. exact Props.C14.C14_imports_sound_spec. Qed.
+Print Assumptions Props.C14.C14_imports_sound_spec.
+Goal forall (uc : unicode), unicode_ok uc ->
+  forall (T ign : list str) (ho_file ho_crate : list imported -> list imported) (hc : crate_types -> crate_types)
+         (ws : list ws_entry) (arrivals : list (str * parsed)),
+    parse_workspace uc T ign ho_file ws = Ok arrivals ->
+    Proofs.C14Front.oracle_ok ho_file -> Proofs.C14Front.oracle_ok ho_crate -> Proofs.C14Front.oracle_ok hc ->
+    forall c pd v,
+      In (c, pd) (multi_crates ho_crate arrivals) ->
+      In v (judge_crate (Proofs.C14Main.c14_infos uc T ws) ign c
+              (scoped_pairs (crate_imports hc (multi_crates ho_crate arrivals) c pd))) ->
+      rv_dom v = true -> rv_imported v = true.
+Proof. exact Props.C14.C14_imports_complete. Qed.
+Print Assumptions Props.C14.C14_imports_complete.
+Goal forall (uc : unicode), unicode_ok uc ->
+  forall (T ign : list str) (ho_file ho_crate : list imported -> list imported) (hc : crate_types -> crate_types)
+         (ws : list ws_entry) (arrivals : list (str * parsed)),
+    parse_workspace uc T ign ho_file ws = Ok arrivals ->
+    Proofs.C14Front.oracle_ok ho_file -> Proofs.C14Front.oracle_ok ho_crate -> Proofs.C14Front.oracle_ok hc ->
+    forall c pd,
+      In (c, pd) (multi_crates ho_crate arrivals) ->
+      good_C14 (Proofs.C14Main.c14_infos uc T ws) ign c
+        (scoped_pairs (crate_imports hc (multi_crates ho_crate arrivals) c pd)) = true.
+Proof. exact Props.C14.C14_imports_good. Qed.
+Print Assumptions Props.C14.C14_imports_good.
+Goal forall ws mapped s c d n, dom_C14 ws mapped s c d n = true -> known_C14 ws s c d n = None.
+Proof. exact Props.C14.C14_dom_excludes_known. Qed.
+Print Assumptions Props.C14.C14_dom_excludes_known.
+Goal exists arrivals pd v,
+    parse_workspace uc_exec [] [] (fun l => l) Proofs.C14Witness.ws_plain = Ok arrivals /\
+    In (lit "my_crate", pd) (multi_crates (fun l => l) arrivals) /\
+    In v (judge_crate (Proofs.C14Main.c14_infos uc_exec [] Proofs.C14Witness.ws_plain) [] (lit "my_crate")
+            (scoped_pairs (crate_imports (fun l => l) (multi_crates (fun l => l) arrivals) (lit "my_crate") pd))) /\
+    rv_dom v = true /\ rv_known v = None /\ rv_imported v = true.
+Proof. exact Props.C14.C14_imports_complete_nonvacuous. Qed.
+Print Assumptions Props.C14.C14_imports_complete_nonvacuous.
+Goal exists arrivals pd v,
+    parse_workspace uc_exec [] [] (fun l => l) Proofs.C14Witness.ws_renamed = Ok arrivals /\
+    In (lit "my_crate", pd) (multi_crates (fun l => l) arrivals) /\
+    In v (judge_crate (Proofs.C14Main.c14_infos uc_exec [] Proofs.C14Witness.ws_renamed) [] (lit "my_crate")
+            (scoped_pairs (crate_imports (fun l => l) (multi_crates (fun l => l) arrivals) (lit "my_crate") pd))) /\
+    rv_known v = Some "C14-renamed-import" /\ rv_imported v = false.
+Proof. exact Props.C14.C14_renamed_import_refuted. Qed.
+Print Assumptions Props.C14.C14_renamed_import_refuted.
+Goal exists arrivals pd v,
+    parse_workspace uc_exec [] [] (fun l => l) Proofs.C14Witness.ws_glob = Ok arrivals /\
+    In (lit "my_crate", pd) (multi_crates (fun l => l) arrivals) /\
+    In v (judge_crate (Proofs.C14Main.c14_infos uc_exec [] Proofs.C14Witness.ws_glob) [] (lit "my_crate")
+            (scoped_pairs (crate_imports (fun l => l) (multi_crates (fun l => l) arrivals) (lit "my_crate") pd))) /\
+    rv_known v = Some "C14-glob" /\ rv_imported v = false.
+Proof. exact Props.C14.C14_glob_refuted. Qed.
+Print Assumptions Props.C14.C14_glob_refuted.
+Goal exists arrivals pd v,
+    parse_workspace uc_exec [] [] (fun l => l) Proofs.C14Witness.ws_same_name = Ok arrivals /\
+    In (lit "my_crate", pd) (multi_crates (fun l => l) arrivals) /\
+    In v (judge_crate (Proofs.C14Main.c14_infos uc_exec [] Proofs.C14Witness.ws_same_name) [] (lit "my_crate")
+            (scoped_pairs (crate_imports (@rev _) (multi_crates (fun l => l) arrivals) (lit "my_crate") pd))) /\
+    rv_known v = Some "C14-same-name" /\ rv_imported v = false.
+Proof. exact Props.C14.C14_same_name_refuted. Qed.
+Print Assumptions Props.C14.C14_same_name_refuted.
+Goal Proofs.C14Witness.w_run (fun l => l) (fun l => l) Proofs.C14Witness.ws_glob_explicit (lit "my_crate") =
+    Some ([(lit "a", lit "A1"); (lit "a", lit "A2Renamed"); (lit "a", lit "A3")], [(lit "A1", lit "a", true, None, true)]) /\
+  Proofs.C14Witness.w_run (@rev _) (fun l => l) Proofs.C14Witness.ws_glob_explicit (lit "my_crate") =
+    Some ([(lit "a", lit "A1")], [(lit "A1", lit "a", true, None, true)]).
+Proof. exact Props.C14.C14_glob_order_refuted. Qed.
+Print Assumptions Props.C14.C14_glob_order_refuted.
+Goal Proofs.C14Witness.w_run (fun l => l) (fun l => l) Proofs.C14Witness.ws_same_name (lit "my_crate") =
+    Some ([(lit "a", lit "S")], [(lit "S", lit "a", false, Some "C14-same-name", true)]) /\
+  Proofs.C14Witness.w_run (fun l => l) (@rev _) Proofs.C14Witness.ws_same_name (lit "my_crate") =
+    Some ([(lit "c", lit "S")], [(lit "S", lit "a", false, Some "C14-same-name", false)]).
+Proof. exact Props.C14.C14_same_name_order_refuted. Qed.
+Print Assumptions Props.C14.C14_same_name_order_refuted.
+Goal exists verdicts,
+    Proofs.C14Witness.w_run (fun l => l) (fun l => l) Proofs.C14Witness.ws_glob_const (lit "my_crate") =
+      Some ([(lit "k", lit "K1"); (lit "k", lit "MyConst")], verdicts) /\
+    const_imports (Proofs.C14Main.c14_infos uc_exec [] Proofs.C14Witness.ws_glob_const) [(lit "k", lit "K1"); (lit "k", lit "MyConst")]
+      = [(lit "k", lit "MyConst")] /\
+    str_to_uppercase uc_exec (to_snake_case uc_exec (lit "MyConst")) = lit "MY_CONST".
+Proof. exact Props.C14.C14_glob_const_refuted. Qed.
+Print Assumptions Props.C14.C14_glob_const_refuted.
